@@ -826,10 +826,13 @@ pub fn emit(e: &mut Emitter, seed: u64, thorough: bool) {
         run_gate(&mut cx, &|| PoseidonGate::<F, D>::new(), i == 0, (i == 0).then(std_cfg));
         run_gate(&mut cx, &|| PoseidonMdsGate::<F, D>::new(), i == 0, (i == 0).then(std_cfg));
     }
-    if thorough {
-        // too few routed wires for PoseidonMdsGate: the circuit evaluator takes its other branch
-        let narrow = CircuitConfig { num_routed_wires: 30, ..std_cfg() };
-        run_gate(&mut cx, &|| PoseidonGate::<F, D>::new(), false, Some(narrow));
+    {
+        // too few routed wires for PoseidonMdsGate (< 48): the circuit evaluator takes its other branch
+        // (`mds_partial_layer_init_circuit` etc. laid out with arithmetic gates)
+        for rw in if thorough { vec![28usize, 30, 37, 47] } else { vec![[28usize, 37, 47][(seed % 3) as usize]] } {
+            let narrow = CircuitConfig { num_routed_wires: rw, ..std_cfg() };
+            run_gate(&mut cx, &|| PoseidonGate::<F, D>::new(), false, Some(narrow));
+        }
     }
     run_gate(&mut cx, &|| PublicInputGate, false, Some(std_cfg()));
     run_gate(&mut cx, &|| NoopGate, false, Some(std_cfg()));
